@@ -27,8 +27,8 @@ import (
 	"golang.org/x/telemetry/internal/telemetry"
 	"golang.org/x/telemetry/internal/upload"
 	"golang.org/x/telemetry/internal/verifsim/hlib"
+	"golang.org/x/telemetry/internal/verifsim/mgen"
 	"golang.org/x/telemetry/internal/verifsim/ref/refcal"
-	"golang.org/x/telemetry/internal/verifsim/ref/refcfg"
 	"golang.org/x/telemetry/internal/verifsim/ref/refformat"
 	"golang.org/x/telemetry/internal/verifsim/simrt"
 )
@@ -52,11 +52,7 @@ const uploadURL = "http://telemetry.sim/upload"
 
 // ---------------------------------------------------------------- model types
 
-type cfgVersion struct {
-	version string
-	ref     *refcfg.Config
-	real    *telemetry.UploadConfig
-}
+type cfgVersion = mgen.CfgVersion
 
 type modelFile struct {
 	path      string
@@ -129,124 +125,6 @@ func (m *machine) fail(inv, format string, args ...any) {
 
 // ---------------------------------------------------------------- generators
 
-var programPool = []struct {
-	path     string
-	versions []string
-}{
-	{"example.com/gopls", []string{"v0.14.0", "v0.15.0", "v0.16.0-pre.1"}},
-	{"cmd/go", nil}, // toolchain program: version = Go version
-	{"example.com/other", []string{"v1.0.0", "devel"}},
-}
-
-var goVersionPool = []string{"go1.21.0", "go1.22.1", "devel"}
-
-var platformPool = [][2]string{{"linux", "amd64"}, {"linux", "amd64"}, {"darwin", "arm64"}, {"plan9", "mips"}}
-
-// Names a program may have counted locally: approved names, bucket expansions,
-// and near-misses of them.
-var localCounterPool = []string{
-	"editor:vscode", "editor:vim", "editor:emacs", "editor", "editor:", "editor:vscode2", "xeditor:vscode",
-	"editor:{vscode,vim}", "plain", "plain2", "plai", "go/invocations", "go/invocation", "flag:-json", "flag:{-json}",
-}
-
-var localStackPool = []string{
-	"crash/crash\nruntime.gopanic:+12,+0x40\nmain.main:+3,+0x10",
-	"crash/crash\nexample.com/pkg.F:+1,+0x10\n\".G:+2,+0x20",
-	"crash/crash2\nmain.main:+3,+0x10",
-	"plain\nmain.main:+1,+0x1", // a stack counter whose first line is an approved plain counter
-	"crash\nmain.main:+1,+0x1",
-}
-
-var cfgCounterPool = []string{"editor:{vscode,vim}", "plain", "go/invocations", "flag:{-json,-v}", "editor:{emacs}"}
-var cfgStackPool = []string{"crash/crash", "crash/other"}
-
-// dyadic rationals k/2^20: exactly representable on both sides of X <= Rate.
-func dyadic(k int) float64 { return float64(k) / float64(1<<20) }
-
-func (m *machine) genConfig(version string) *cfgVersion {
-	t := m.t
-	rc := &refcfg.Config{}
-	rc.GOOS = []string{"linux", "darwin"}
-	rc.GOARCH = []string{"amd64", "arm64"}
-	if t.Bool(1, 6) {
-		rc.GOOS = []string{"linux"}
-	}
-	for _, gv := range goVersionPool {
-		if t.Bool(3, 4) {
-			rc.GoVersion = append(rc.GoVersion, gv)
-		}
-	}
-	rates := []float64{0, 1, dyadic(1 << 19), dyadic(1<<19 + 1), dyadic(1<<19 - 1), dyadic(3 << 18)}
-	switch t.Biased(4, 1, 2) {
-	case 0:
-		rc.SampleRate = 1
-	case 1:
-		rc.SampleRate = 0
-	case 2:
-		rc.SampleRate = dyadic(1 << 19)
-	case 3:
-		rc.SampleRate = rates[t.Draw(len(rates))]
-	}
-	for _, pp := range programPool {
-		if !t.Bool(4, 5) {
-			continue
-		}
-		p := refcfg.Program{Name: pp.path}
-		vs := pp.versions
-		if vs == nil {
-			vs = goVersionPool
-		}
-		for _, v := range vs {
-			if t.Bool(3, 4) {
-				p.Versions = append(p.Versions, v)
-			}
-		}
-		for _, cn := range cfgCounterPool {
-			if t.Bool(2, 3) {
-				p.Counters = append(p.Counters, refcfg.Counter{Name: cn, Rate: rates[t.Biased(len(rates), 1, 3)+0]})
-			}
-		}
-		for _, sn := range cfgStackPool {
-			if t.Bool(2, 3) {
-				p.Stacks = append(p.Stacks, refcfg.Counter{Name: sn, Rate: rates[t.Biased(len(rates), 1, 3)]})
-			}
-		}
-		rc.Programs = append(rc.Programs, p)
-	}
-	// Rate 0 is listed first in rates so Biased's benign choice is "never
-	// uploaded"; flip so that the benign choice is rate 1 (always uploaded).
-	for i := range rc.Programs {
-		for j := range rc.Programs[i].Counters {
-			rc.Programs[i].Counters[j].Rate = flipRate(rc.Programs[i].Counters[j].Rate)
-		}
-		for j := range rc.Programs[i].Stacks {
-			rc.Programs[i].Stacks[j].Rate = flipRate(rc.Programs[i].Stacks[j].Rate)
-		}
-	}
-	real := &telemetry.UploadConfig{GOOS: rc.GOOS, GOARCH: rc.GOARCH, GoVersion: rc.GoVersion, SampleRate: rc.SampleRate}
-	for _, p := range rc.Programs {
-		rp := &telemetry.ProgramConfig{Name: p.Name, Versions: p.Versions}
-		for _, c := range p.Counters {
-			rp.Counters = append(rp.Counters, telemetry.CounterConfig{Name: c.Name, Rate: c.Rate})
-		}
-		for _, c := range p.Stacks {
-			rp.Stacks = append(rp.Stacks, telemetry.CounterConfig{Name: c.Name, Rate: c.Rate, Depth: 16})
-		}
-		real.Programs = append(real.Programs, rp)
-	}
-	return &cfgVersion{version: version, ref: rc, real: real}
-}
-
-func flipRate(r float64) float64 {
-	switch r {
-	case 0:
-		return 1
-	case 1:
-		return 0
-	}
-	return r
-}
-
 // xReader is installed as crypto/rand.Reader (an exported variable: an existing
 // seam). computeRandom turns 8 bytes into X = 2*frac-1 for the 52-bit fraction
 // of the float they encode; the reader encodes (X+1)/2 so that X is the value
@@ -263,69 +141,6 @@ func (r xReader) Read(p []byte) (int, error) {
 		m.xByTask[t] = append(m.xByTask[t], x)
 	}
 	return len(p), nil
-}
-
-// writeCounterFile adds a counter file produced by the independent encoder.
-func (m *machine) writeCounterFile(begin time.Time, days int, kind int) {
-	t := m.t
-	pp := programPool[t.Draw(len(programPool))]
-	gv := goVersionPool[t.Draw(len(goVersionPool))]
-	ver := gv
-	if pp.versions != nil {
-		ver = pp.versions[t.Draw(len(pp.versions))]
-	}
-	plat := platformPool[t.Draw(len(platformPool))]
-	bday := refcal.DayOfUnix(begin.Unix())
-	meta := refformat.MetaText([][2]string{
-		{"TimeBegin", refcal.RFC3339Midnight(bday)}, {"TimeEnd", refcal.RFC3339Midnight(bday + days)},
-		{"Program", pp.path}, {"Version", ver}, {"GoVersion", gv}, {"GOOS", plat[0]}, {"GOARCH", plat[1]},
-	})
-	var pairs []refformat.Pair
-	if kind != 1 { // kind 1: empty file (no counters)
-		n := 1 + t.Draw(5)
-		seen := map[string]bool{}
-		for i := 0; i < n; i++ {
-			var name string
-			if t.Bool(1, 4) {
-				name = localStackPool[t.Draw(len(localStackPool))]
-			} else {
-				name = localCounterPool[t.Draw(len(localCounterPool))]
-			}
-			if seen[name] {
-				continue
-			}
-			seen[name] = true
-			pairs = append(pairs, refformat.Pair{Name: name, Value: uint64(1 + t.Draw(1000))})
-		}
-	}
-	data, err := refformat.Encode(meta, pairs, t.Draw(2))
-	if err != nil {
-		panic(err)
-	}
-	if kind == 2 { // unparseable
-		switch t.Draw(3) {
-		case 0:
-			data = data[:100]
-		case 1:
-			copy(data, "# not a counter file")
-		case 2:
-			binary.LittleEndian.PutUint32(data[28:], 0xffff)
-		}
-	}
-	progBase := pp.path[strings.LastIndex(pp.path, "/")+1:]
-	name := fmt.Sprintf("%s@%s-%s-%s-%s-%s.v1.count", progBase, ver, gv, plat[0], plat[1], refcal.Date(bday))
-	if kind == 3 { // a second file of the same build and day cannot exist; vary the name as another program would
-		name = "x" + name
-	}
-	os.MkdirAll(m.loc, 0777)
-	path := filepath.Join(m.loc, name)
-	if _, err := os.Stat(path); err == nil {
-		return
-	}
-	if err := os.WriteFile(path, data, 0666); err != nil {
-		panic(err)
-	}
-	m.s.SetMtime(path, m.s.NowT())
 }
 
 // snapshotFiles builds the model of the counter files present at the start of a round.
@@ -454,11 +269,11 @@ func scenarioMachine(c *hlib.RunCtx) *hlib.Violation {
 	os.MkdirAll(m.loc, 0777)
 	os.WriteFile(filepath.Join(m.loc, "weekends"), []byte(fmt.Sprintf("%d\n", t.Draw(7))), 0666)
 
-	m.xs = []float64{dyadic(1 << 18), dyadic(1 << 19), dyadic(1<<19 + 1), dyadic(1<<19 - 1), dyadic(1), dyadic(1<<20 - 1), dyadic(3 << 18)}
+	m.xs = []float64{mgen.Dyadic(1 << 18), mgen.Dyadic(1 << 19), mgen.Dyadic(1<<19 + 1), mgen.Dyadic(1<<19 - 1), mgen.Dyadic(1), mgen.Dyadic(1<<20 - 1), mgen.Dyadic(3 << 18)}
 	saveReader := rand.Reader
 	rand.Reader = xReader{m}
 	defer func() { rand.Reader = saveReader }()
-	m.cfgs = append(m.cfgs, m.genConfig("v0.1.0"))
+	m.cfgs = append(m.cfgs, mgen.GenConfig(m.t, "v0.1.0"))
 	configstore.VerifDownload = func(version string, env []string) (*telemetry.UploadConfig, string, error) {
 		simrt.Yield("config:download")
 		tk := simrt.Cur()
@@ -469,12 +284,12 @@ func scenarioMachine(c *hlib.RunCtx) *hlib.Violation {
 			return nil, "", fmt.Errorf("simulated config download failure")
 		}
 		m.cfgByTask[tk] = cur
-		s.Logf("config", "download -> %s", cur.version)
+		s.Logf("config", "download -> %s", cur.Version)
 		// hand out a deep copy: the uploader must not be able to change the store
-		js, _ := json.Marshal(cur.real)
+		js, _ := json.Marshal(cur.Real)
 		var cp telemetry.UploadConfig
 		json.Unmarshal(js, &cp)
-		return &cp, cur.version, nil
+		return &cp, cur.Version, nil
 	}
 	defer func() { configstore.VerifDownload = nil }()
 
@@ -536,14 +351,14 @@ func scenarioMachine(c *hlib.RunCtx) *hlib.Violation {
 		for i := 0; i < nfiles; i++ {
 			ago := 1 + t.Draw(30)
 			kind := t.Biased(4, 4, 5)
-			m.writeCounterFile(s.NowT().Add(-time.Duration(ago)*24*time.Hour), 1+t.Draw(7), kind)
+			mgen.WriteCounterFile(m.t, m.s, m.loc, s.NowT().Add(-time.Duration(ago)*24*time.Hour), 1+t.Draw(7), kind)
 		}
 		if t.Bool(1, 5) { // a file that is still active
-			m.writeCounterFile(s.NowT(), 1+t.Draw(7), 0)
+			mgen.WriteCounterFile(m.t, m.s, m.loc, s.NowT(), 1+t.Draw(7), 0)
 		}
 		// config store moves on
 		if t.Bool(1, 3) {
-			m.cfgs = append(m.cfgs, m.genConfig(fmt.Sprintf("v0.%d.0", len(m.cfgs)+1)))
+			m.cfgs = append(m.cfgs, mgen.GenConfig(m.t, fmt.Sprintf("v0.%d.0", len(m.cfgs)+1)))
 		}
 		// the user
 		if modeChanges && t.Bool(1, 2) {
@@ -629,7 +444,7 @@ func (m *machine) runRound(hist *[]string) {
 		tasks = append(tasks, tk)
 	}
 	*hist = append(*hist, fmt.Sprintf("round %d: %s mode=%s asof=%s files=%d uploaders=%d cfg=%s", m.round, m.roundStart.Format("2006-01-02T15:04"), m.roundMode,
-		m.roundAsof.Format("2006-01-02"), len(m.roundFiles), nup, m.cfgs[len(m.cfgs)-1].version))
+		m.roundAsof.Format("2006-01-02"), len(m.roundFiles), nup, m.cfgs[len(m.cfgs)-1].Version))
 	s.MaxSteps = s.Steps + 200000
 	capped := s.Run()
 	if m.viol != nil {
